@@ -7,6 +7,7 @@
 import Krp.Lemmas.HubFrame
 import Krp.System
 import Krp.Init
+import Krp.Lemmas.Reach
 namespace Krp
 open HubSt
 
@@ -249,5 +250,31 @@ theorem C10_tokens (t : Token) (b : Block) (self : Addr) (rw : Res Addr) (hubc s
 /-! Non-vacuity: an arbitrary user is not the owner of a fresh hub. -/
 example : ∃ h, hubInit 1 0 30 100 0 D 1 3 = .ok h ∧ ¬ hubPrincipalOk h 100 5 (.setOwner 5) :=
   ⟨_, rfl, by simp [hubPrincipalOk]⟩
+
+/-! ### As whole transactions
+
+  Decision tables + atomicity: a privileged message from a non-principal is a failed transaction —
+  the state of every contract and of the chain, attached funds included, is exactly what it was. -/
+
+theorem C10_system_hub (s : Sys) (sender : Addr) (funds : List (Denom × Nat)) (hm : HubMsg)
+    (hno : ¬ hubPrincipalOk s.hub hubA sender hm) :
+    ∃ err, s.exec (.wasm sender hubA (.hub hm) funds) = (s, .error err) :=
+  exec_rejected_hub s sender funds hm (fun e he => C10_hub s.hub e sender funds hm (by rw [he]; exact hno))
+
+theorem C10_system_dispatcher (s : Sys) (sender : Addr) (funds : List (Denom × Nat)) (dm : DispMsg)
+    (hno : match dm with
+      | .swap .. | .dispatch => sender ≠ s.disp.hub
+      | .acceptOwnership => sender ≠ s.disp.newOwner
+      | _ => sender ≠ s.disp.owner) :
+    ∃ err, s.exec (.wasm sender dispA (.disp dm) funds) = (s, .error err) :=
+  exec_rejected_disp s sender funds dm (fun env => C10_dispatcher s.disp dispA env sender dm hno)
+
+theorem C10_system_reward_owner (s : Sys) (sender : Addr) (funds : List (Denom × Nat)) (rm : RewMsg)
+    (hm : (∃ a b c, rm = .updateConfig a b c) ∨ (∃ a, rm = .setOwner a) ∨ (∃ d b, rm = .updateSwapDenom d b))
+    (hno : sender ≠ s.reward.owner) :
+    ∃ err, s.exec (.wasm sender rewardA (.reward rm) funds) = (s, .error err) :=
+  exec_rejected_reward s sender funds rm (fun tk dp bb => by
+    rcases hm with ⟨a, b, c, rfl⟩ | ⟨a, rfl⟩ | ⟨d, b, rfl⟩ <;>
+      exact C10_reward s.reward rewardA tk dp bb sender _ (by simpa using hno))
 
 end Krp
